@@ -277,11 +277,12 @@ C40Init == /\ \E f \in McProvSeqs : \E g \in PolGeoSets : \E m \in 2..MaxSlots :
            /\ Blank
 \* C01 design level, sub filter order: one mixed requirement (x, a, <<e>>) -> sub filter keys "a" and "e"; providers that
 \* support neither / only the add-on / only the extension / both
-SubInit == /\ cfg \in [id : {0}, prov : [1..NP -> [stake : {1}, geo : {{1}}, st : {"ok"}, kx : {0, 1, 2, 3}, ky : {0}]],
+SubInit == /\ cfg \in [id : {0}, prov : {f \in [1..NP -> [stake : {1}, geo : {{1}}, st : {"ok"}, kx : {0, 1, 2, 3}, ky : {0}]] :
+                                                  \A i \in 1..(NP - 1) : f[i].kx <= f[i + 1].kx},
                        plan : {UPol(<<[ifc |-> "x", ad |-> "a", ext |-> <<"e">>, mx |-> TRUE]>>)}, sub : {NoPolicy}, admin : {NoPolicy}]
            /\ tab = TabOf(cfg)
            /\ Blank
-UnionInit == /\ cfg \in [id : {0}, prov : [1..NP -> UProv], plan : {UPol(<<>>)}, sub : {UPol(r) : r \in UReq}, admin : {UPol(r) : r \in UReq}]
+UnionInit == /\ cfg \in [id : {0}, prov : {f \in [1..NP -> UProv] : \A i \in 1..(NP - 1) : ProvKey(f[i]) <= ProvKey(f[i + 1])}, plan : {UPol(<<>>)}, sub : {UPol(r) : r \in UReq}, admin : {UPol(r) : r \in UReq}]
              /\ tab = TabOf(cfg)
              /\ Blank
 
